@@ -13,11 +13,10 @@
      assertions and literals (Proofs/Det.v) — e.g. a class next to a hard construct, the \Z helper,
      the class inside a look-around.  (Runs of plain literals become one Lit instruction, and in a
      hard context everything except classes and case-insensitive literals is compiled to VM
-     instructions anyway.)  Programs that delegate a block with alternation, repetition or capture
-     groups are covered by the differential tiers, not by this theorem.
+     instructions anyway.)  This is the scope of the STAGE-1 statement C01_vm_follows_reference
+     only; C01_vm_follows_reference_all below has no such restriction.
    - [oke]: literals are single characters and class nodes have size 1 (parser invariants), every
-     backreference names a group opened earlier (what the analysis checks), counted repeats have
-     lo <= hi (what the parser checks), and no conditional sits inside the body of an atomic
+     backreference names a group opened earlier (what the analysis checks), and no conditional sits inside the body of an atomic
      group, of a look-around or in the condition position of another conditional (known finding
      F-condleak: the statement is FALSE there; everywhere else conditionals are covered).
    Look-behinds over alternations of different lengths are inside the scope: the compiler turns
